@@ -3,6 +3,7 @@ import Rpcx.Driver.Header
 import Rpcx.Driver.Wire
 import Rpcx.Driver.Breaker
 import Rpcx.Driver.Select
+import Rpcx.Driver.Pool
 /-
   Line-protocol driver: one operation per input line, one canonical output line per
   operation.  Runs the executable definitions of the model (generated and hand-written);
@@ -19,6 +20,7 @@ def step (line : String) : String :=
   | "decall" :: ws => cmdDecAll ws
   | "brk" :: ws => cmdBrk ws
   | "sel" :: ws => cmdSel ws
+  | "pool" :: ws => cmdPool ws
   | _ => "bad-op"
 
 partial def loop (hin : IO.FS.Stream) (hout : IO.FS.Stream) : IO Unit := do
